@@ -127,11 +127,24 @@ PROPS = {
              shards=(8, 16), n=(8, 150),
              trusted=["encoding/json struct (de)serialisation and time.Time's JSON form (modelled at member level: Gsp.Json.view/unview; parse/render of times are parameters with the round-trip assumption parse(render t) = t)",
                       "json-gold for the roots (see C01-C03)"]),
+    "C18": P("cases = generated schemas (draft-07, 2020-12 and no $schema; depth <= 3; type incl. type arrays, properties / required / additionalProperties (false or schema) / min-maxProperties, items / prefixItems / additionalItems / min-maxItems, "
+             "enum, const, minimum / maximum / exclusive bounds with integers, decimals and exponents, min-maxLength, 13 patterns of the portable regex subset, allOf / anyOf / oneOf / not, boolean schemas, $ref to local definitions with and "
+             "without sibling keywords, a top-level $metadata block) x 8 instances (one conforming by construction where possible, 7 random objects); the verdict valid / invalid / error of Validator.ValidateData and of the Processor "
+             "facade vs the Lean validator; verdicts with and without $metadata; 26 hand-written error cases (invalid schemas, non-object data, malformed JSON, unknown draft); non-trivial = every case; distinct = distinct (schema, data) hashes",
+             shards=(8, 16), n=(40, 1500),
+             trusted=["santhosh-tekuri/jsonschema v5 is the implementation under comparison (third party); schema well-formedness (meta-schema validation) is its own and only exercised by the hand-written error cases",
+                      "regular expressions: only the portable subset (literals, ., classes, \\d \\w \\s, * + ?, ^ $) is modelled and generated"]),
 }
 
 NOT_APPLICABLE = {}
 
 MANIFEST_TEXT = {
+    "C18": dict(
+        text="Lean: an executable JSON Schema validator for the structural vocabulary under draft-07 and 2020-12 (Gsp.Schema, open-recursive keyword groups, fuelled for $ref) with theorems pinning the reference semantics: annotation_ignored "
+             "(an unknown member such as $metadata never changes a node's verdict), checkKeywords_congr, not/allOf/anyOf/oneOf specifications, oneOf_two, ref_unfold, ref_siblings_ignored_draft07, draft07_items_eq_2020_prefixItems, "
+             "type_integer_accepts_integral, validate_root_congr, nonobject_rejected, bool_schema. Tie: the Go library's verdict (valid / invalid / error) vs the Lean validator on generated schema x instance pairs; instances "
+             "conforming by construction must be valid; $metadata must not matter; error cases.",
+        note="PARTIAL by nature: the Go validator library is compared with the reference semantics, not verified. Defect D11 (JSON null accepted as data) found here and fixed in /repo (e699080)."),
     "C14": dict(
         text="Lean theorems (Gsp.Props.C14 over Gsp.Json.view / unview, the member-level model of W3CCredential's JSON codec): view_lossless - for the supported shape every known member survives decode+encode as the same JSON value (contexts, "
              "types, subject, status, issuer, schema, proofs, id, refresh service, display method) and each date as a string denoting the same instant; root_indep_of_proofs - the document that is merklized (encoding minus proof) does not depend on "
